@@ -12,6 +12,7 @@
       that a matrix ending with a power of (1 q; 0 1) leaves a < 2b — "M ends with a quotient … either q or q + 1 is correct").
 -/
 import MpirProofs.Lemmas.HgcdNorm
+import MpirProofs.Lemmas.HgcdMulSize
 import MpirProofs.Props.C07_gcdextdc
 namespace Mpir.C07n
 open Mpir Mpir.Gcd Mpir.Hgcd Mpir.Gcdext
@@ -81,5 +82,27 @@ theorem mpn_gcdext_dc_ok_of_norm_partial (thr : Thr) (ns : Nat → Nat) (h8 : 8 
     (mpn_hgcd_mn_of_norm _ _ hok hN)
 
 example : (mpnGcdextS (hgcd ⟨8, 50, 1000, 2⟩ id) 10 (3 ^ 480) 12 (5 ^ 320) 12).ok = true := by decide +kernel
+
+/-- **The size claim in the comment of mpn_hgcd_matrix_mul**, given balance.  M (det 1, tight size field) reconstructs from
+    the state (x, y); M1 (tight) reduces the limbs of (x, y) from p on to (u, v) ≥ T with |u − v| < T (what a successful
+    mpn_hgcd returns); the state is balanced w.r.t. the last factor of M: if column 0 of M dominates ("M ends with a power
+    of (1 0; 1 1)") then y ≤ K·x, if column 1 dominates then x ≤ K·y, with 8K ≤ B ("either q or q + 1 is a correct
+    quotient", K = 2).  Then max(M)·max(M1) ≤ 8K·max(M·M1) — "we can't have M ending with a large power and M1 starting
+    with a large power of the same matrix" — and mpn_hgcd_matrix_mul's three conditional decrements leave a TIGHT size
+    field: its final `ASSERT ((M->p[0][0][n] | …) > 0)` holds, i.e. normalised size ≥ M->n + M1->n − 2.
+    (Not yet connected to `HgcdNorm`: the balance hypothesis has to be carried through mpn_hgcd2 and the recursion.) -/
+theorem hgcd_matrix_mul_tight_of_balance (thr : Nat) (M M1 : HM) (x y u v p T K : Nat) (hf : M.Fits) (hf1 : M1.Fits)
+    (hn : 1 ≤ M.n) (hn1 : 1 ≤ M1.n) (hd : det1 M.toM1) (hN : M.NormD) (hN1 : M1.NormD) (hK : 1 ≤ K) (hKB : 8 * K ≤ B)
+    (hrel : MRel M1.toM1 u v (x / B ^ p) (y / B ^ p)) (hu : T ≤ u) (hv : T ≤ v) (hT : 0 < T) (hdiff : absDiff u v < T)
+    (hx : B ^ p ≤ x) (hy : B ^ p ≤ y)
+    (hb0 : M.e01 ≤ M.e00 ∧ M.e11 ≤ M.e10 → y ≤ K * x) (hb1 : M.e00 ≤ M.e01 ∧ M.e10 ≤ M.e11 → x ≤ K * y) :
+    mxM M.toM1 * mxM M1.toM1 ≤ 8 * K * mxM (mmul M.toM1 M1.toM1) ∧ (matMul thr M M1).NormD := by
+  have hc := mul_size_claim M.toM1 M1.toM1 x y u v (B ^ p) T K (pow_pos B_pos _) hK hd hrel hu hv hT hdiff hx hy hb0 hb1
+  exact ⟨hc, matMul_norm thr M M1 hf hf1 hn hn1 hd hrel.1 hN hN1 (le_trans hc (Nat.mul_le_mul_right _ hKB))⟩
+
+-- non-vacuity: M = (2 1; 1 1) (column 0 dominates), state (5, 3), M1 = (1 1; 0 1) reducing it to (2, 3), K = 1
+example : MRel (⟨9, 1, 1, 1, 0, 1⟩ : HM).toM1 2 3 (5 / B ^ 0) (3 / B ^ 0) ∧ absDiff 2 3 < 2 ∧
+    matMul 1 ⟨9, 1, 2, 1, 1, 1⟩ ⟨9, 1, 1, 1, 0, 1⟩ = ⟨9, 1, 2, 3, 1, 2⟩ := by
+  unfold MRel HM.toM1 absDiff; decide +kernel
 
 end Mpir.C07n
